@@ -27,6 +27,7 @@ MIN_BYTES = 16
 
 def run(ctx, config="default"):
     fx = ctx.facts(config)
+    _FX[0] = fx
     I = imodel.Issuer(ctx, fx, "C14.S1")
     if not I.ok:
         return
@@ -107,7 +108,7 @@ def run(ctx, config="default"):
         ev = vals(enc).return_value()
         ep = peel(ev)
         oke = ep.kind == "call" and ep.d["term"].get("name") == "encode" and (ep.d["term"].get("trait") or "") == "base64::Engine" and len(ep.kids) > 1 and peel(ep.kids[1]).kind == "param" \
-            and "URL_SAFE_NO_PAD" in (ep.kids[0].d.get("c", {}).get("def") or "")
+            and "URL_SAFE_NO_PAD" in _engine_name(fx, ep.kids[0])
         if oke:
             ctx.ok("C14.S2", enc, "encode-whole", "base64url_encode encodes its whole input with URL_SAFE_NO_PAD")
         else:
@@ -149,6 +150,19 @@ def run(ctx, config="default"):
             ctx.ok("C14.S4", bh, "sha256", "base64_hash = URL-safe unpadded base64 of SHA-256 over the whole input (%s; hasher type resolves to sha2::Sha256)" % why)
         else:
             ctx.finding("C14.S4", bh, "sha256", "base64_hash is not SHA-256 of the whole input, URL-safe unpadded (%s): %s" % (why, vstr(bv, 5)))
+    # ---- S6: an issued SD-JWT carries only the disclosures (salts) drawn for it: the issuer's disclosure list does not survive from one
+    # issuance to the next (the field-flow rule of C11.S, for the field that holds the issued disclosures)
+    st = c11.stale_fields(fx, imodel.ISTRUCT, imodel.ISSUE)
+    if st is None:
+        ctx.missing("C14.S6", "issuer state", "cannot summarise the issuer's fields")
+    else:
+        bad = [(f, sites) for (f, sites) in st if f == "all_disclosures"]
+        if bad:
+            (fname, line_, kind, desc) = bad[0][1][0]
+            ctx.finding("C14.S6", fx.fns.get(imodel.ISSUE), "stale:all_disclosures", "the issuer's disclosure list is not re-initialised by every issuance (first access is a %s in %s): disclosures of an earlier SD-JWT, "
+                        "with their salts, are emitted again in a later one" % ({"R": "read", "RMW": "read-modify-write"}[kind], fname), line=line_)
+        else:
+            ctx.ok("C14.S6", fx.fns.get(imodel.ISSUE), "fresh-disclosure-list", "every issuance starts from an empty disclosure list: no salt of an earlier SD-JWT is emitted again")
     # ---- S5
     reach = I.reach
     nstat = 0
@@ -162,11 +176,33 @@ def run(ctx, config="default"):
     ctx.ok("C14.S5", None, "no-global-state", "%d functions reachable from issue_sd_jwt, %d static references, none mutable" % (len(reach), nstat))
 
 
+def _engine_name(fx, node):
+    """the constant an engine operand names, following `const MINE: GeneralPurpose = URL_SAFE_NO_PAD;` aliases (facts: consts[..].alias_of)"""
+    d = (node.d.get("c", {}) or {}).get("def") or "" if node.kind == "const" else ""
+    g = 0
+    while d and g < 4:
+        info = (fx.raw.get("consts") or {}).get(d) if fx is not None else None
+        nxt = (info or {}).get("alias_of")
+        if not nxt:
+            break
+        d = nxt
+        g += 1
+    return d
+
+
+_FX = [None]
+
+
 def _is_urlsafe_nopad_encode(x):
-    return x.kind == "call" and x.d["term"].get("name") == "encode" and len(x.kids) == 2 and "URL_SAFE_NO_PAD" in (x.kids[0].d.get("c", {}).get("def") or "")
+    return x.kind == "call" and x.d["term"].get("name") == "encode" and len(x.kids) == 2 and "URL_SAFE_NO_PAD" in _engine_name(_FX[0], x.kids[0])
 
 
 def sha256_b64(fx, bv):
+    _FX[0] = fx
+    return _sha256_b64(fx, bv)
+
+
+def _sha256_b64(fx, bv):
     """bv = encode_urlsafe_nopad(H) with H = SHA-256(param), where the encoder is base64's URL_SAFE_NO_PAD engine called directly or through a
     crate-local one-argument wrapper, and H is either Sha256::digest(data) or new()/update(data)/finalize() with exactly one update"""
     # the encoder
